@@ -21,6 +21,12 @@ type Dispatcher interface {
 	Dispatch(ctx context.Context, imp interface{}, req *requestf.RequestPacket, resp *requestf.ResponsePacket, withContext bool) error
 }
 
+// ServantDef binds an object name to its dispatcher and implementation.
+type ServantDef struct {
+	D   Dispatcher
+	Imp interface{}
+}
+
 // Adapter describes one servant endpoint.
 type Adapter struct {
 	Obj   string // e.g. "App.Server.Obj"
@@ -38,6 +44,7 @@ type Config struct {
 	IdleTimeout   int // ms
 	MaxPackageLen int
 	Extra         map[string]string // further keys of /tars/application/server
+	Servants      map[string]ServantDef // per-object dispatcher/implementation (overrides Start's arguments)
 	Dir           string            // scratch dir (config file, logs); created if empty
 }
 
@@ -100,10 +107,14 @@ func Start(c *Config, d Dispatcher, imp interface{}, withContext bool) error {
 			continue
 		}
 		seen[a.Obj] = true
+		dd, ii := d, imp
+		if sd, ok := c.Servants[a.Obj]; ok {
+			dd, ii = sd.D, sd.Imp
+		}
 		if withContext {
-			tars.AddServantWithContext(d, imp, a.Obj)
+			tars.AddServantWithContext(dd, ii, a.Obj)
 		} else {
-			tars.AddServant(d, imp, a.Obj)
+			tars.AddServant(dd, ii, a.Obj)
 		}
 	}
 	go tars.Run()
